@@ -319,26 +319,40 @@ def default_fit_intercept(name):
             "GroupBCD": False, "GroupProxNewton": False}.get(name, False)
 
 
-def grad_scale(case, X, y, eta):
-    """natural cancellation scale of each component of the feature gradient (see C06)"""
+def eta_magnitude(case, X, w, b):
+    """size of the terms summed into the linear predictor along the run (|X||w| + |b|, final and start point):
+    round-off in the solver's incrementally updated Xw is relative to this, not to the (possibly cancelled) eta"""
+    m = np.abs(X) @ np.abs(w) + abs(b)
+    if case.get("init") is not None:
+        w0 = np.abs(np.array(case["init"]["w"], float))
+        if w0.ndim == 1:
+            nv = X.shape[1]
+            m = m + np.abs(X) @ w0[:nv] + (float(w0[nv]) if len(w0) > nv else 0.)
+    return m
+
+
+def grad_scale(case, X, y, eta, eta_mag=None):
+    """natural cancellation scale of each component of the feature gradient (see C06): sizes of the terms that
+    are subtracted in dloss/deta, plus curvature x magnitude of the predictor computation"""
     d = case["datafit"]
     n = X.shape[0]
     nm = d["name"] if d else "Quadratic"
+    em = np.abs(eta) if eta_mag is None else np.maximum(eta_mag, np.abs(eta))
     if nm == "QuadraticSVC":
-        return np.abs(X).T @ np.abs(eta) + 1.
+        return np.abs(X).T @ em + 1., 1.
     if nm in ("Quadratic", "QuadraticGroup", "Huber"):
-        rs = (np.abs(eta) + np.abs(y)) / n
+        rs = (em + np.abs(y)) / n
     elif nm == "WeightedQuadratic":
         sw = np.array(d["sample_weights"])
-        rs = sw / sw.sum() * (np.abs(eta) + np.abs(y))
+        rs = sw / sw.sum() * (em + np.abs(y))
     elif nm == "Poisson":
-        rs = (np.exp(eta) + np.abs(y)) / n
+        rs = (np.exp(eta) * (1 + em) + np.abs(y)) / n
     elif nm == "Gamma":
-        rs = (1 + y * np.exp(-eta)) / n
+        rs = (1 + y * np.exp(-eta) * (1 + em)) / n
     elif nm == "Cox":
-        rs = np.full(n, (1. + y[:, 1].sum()) / n)
+        rs = np.full(n, (1. + y[:, 1].sum()) / n) * (1 + em)
     else:
-        rs = np.full(n, 1. / n)
+        rs = (1. + em / 4) / n
     return np.abs(X).T @ rs + 1e-300, float(rs.sum()) + 1e-300
 
 
@@ -355,7 +369,7 @@ def scalar_certificate(case, w_full, strategy="subdiff", impl_pen=None, eta_buf=
         M = (y[:, None] * X).T
         theta = M @ w if eta_buf is None else np.asarray(eta_buf, float)
         g = M.T @ theta - 1.
-        gs = np.abs(M).T @ np.abs(theta) + 1.
+        gs = np.abs(M).T @ np.maximum(np.abs(theta), eta_magnitude(case, M, w, 0.)) + 1.
         icpt, icpt_scale = 0., 1.
         obj = .5 * float(theta @ theta) - float(w.sum()) + pen.value(w)
         lips = (M ** 2).sum(0)
@@ -364,7 +378,7 @@ def scalar_certificate(case, w_full, strategy="subdiff", impl_pen=None, eta_buf=
         eta = X @ w + b if eta_buf is None else np.asarray(eta_buf, float)
         r = loss.grad(y, eta)
         g = X.T @ r
-        gs, icpt_scale = grad_scale(case, X, y, eta)
+        gs, icpt_scale = grad_scale(case, X, y, eta, eta_magnitude(case, X, w, b))
         icpt = abs(float(r.sum())) if fi else 0.
         obj = loss.value(y, eta) + pen.value(w)
         lips = None
@@ -578,7 +592,7 @@ def group_certificate(case, w_full, eta_buf=None):
     eta = X @ w + b if eta_buf is None else np.asarray(eta_buf, float)
     r = loss.grad(y, eta)
     g = X.T @ r
-    gs, icpt_scale = grad_scale(case, X, y, eta)
+    gs, icpt_scale = grad_scale(case, X, y, eta, eta_magnitude(case, X, w, b))
     v = pen.sdist_all(w, g)
     gsc = np.array([np.linalg.norm(gs[idx]) for idx in pen.groups])
     return dict(vec=v, feat=float(v.max()) if len(v) else 0., icpt=abs(float(r.sum())) if fi else 0.,
@@ -625,9 +639,14 @@ def multitask_certificate(case, W_full, eta_buf=None):
     Rr = (E - Y) / n
     G = X.T @ Rr
     v = np.array([pen.block_sdist(W[j], G[j], j) for j in range(W.shape[0])])
-    gs = np.abs(X).T @ ((np.abs(E) + np.abs(Y)) / n) + 1e-300
+    em = np.abs(X) @ np.abs(W) + np.abs(B)
+    if case.get("init") is not None:
+        W0 = np.abs(np.array(case["init"]["w"], float))
+        em = em + np.abs(X) @ W0[:X.shape[1]] + (W0[-1] if fi else 0.)
+    E_mag = np.maximum(np.abs(E), em)
+    gs = np.abs(X).T @ ((E_mag + np.abs(Y)) / n) + 1e-300
     return dict(vec=v, feat=float(v.max()) if len(v) else 0., icpt=float(np.abs(Rr.sum(0)).max()) if fi else 0.,
-                gscale=np.linalg.norm(gs, axis=1), icpt_scale=float(((np.abs(E) + np.abs(Y)) / n).sum(0).max()) + 1e-300,
+                gscale=np.linalg.norm(gs, axis=1), icpt_scale=float(((E_mag + np.abs(Y)) / n).sum(0).max()) + 1e-300,
                 obj=float(((E - Y) ** 2).sum() / (2 * n)) + pen.value(W), grad=G)
 
 
